@@ -10,16 +10,16 @@ DAG_NOTE = ('Theorems are about the hand-written Lean run model (lean/LabtechMod
             'Trusted: Lean kernel, axioms propext/Classical.choice/Quot.sound, the harness, CPython.')
 TECH = 'Lean 4 proof about a hand-written executable model + checked correspondence (differential execution vs the real code) + implementation-side monitors'
 C = {
- 'C01': ('proof (partial): returned dict = captured own outcomes in request order, each once; an outcome is behave(own reads) or the stored value under the own key; schedule/backend independence proved on a concrete diamond for all 3 backends x 3 worker counts x 2 schedules; the all-DAG statement run = refEval is still open (needs the dependency invariant). Correspondence + C01 monitor (plain sequential evaluation) on ~3000 generated cases per quick run.', DAG_NOTE),
- 'C02': ('proof (partial): a submitted task has no pending dependency; complete_task only ever removes the completing task from pending-dependency sets and a pending dependency stays until it completes; dependency reads are by own identity, a missing entry is a raise; failed outcomes store nothing. The trace-level statement (every start preceded by the yields of all dependencies) is being derived from the master invariant.', DAG_NOTE),
- 'C03': ('proof (partial): work list duplicate-free after planning; start removes, complete never re-inserts; one submit phase submits pairwise distinct pending tasks; cached tasks contribute no dependencies; already processed objects are skipped; one load xor one exec record per job; every recorded instance is marked on success.', DAG_NOTE),
+ 'C01': ('proof: returns_reference_values - for every acyclic problem whose tasks succeed, every backend, max_workers, max_parallel, sound cache pre-state, bust flag and every fair schedule, run_tasks returns exactly the requested tasks in request order with the value of the plain sequential dependency-first evaluation (refEval); every_yield_is_reference_value for every outcome at any point; plus returned_keys_in_request_order, captured_is_own_outcome. Correspondence + monitor on ~3000 generated one- and two-call cases and ~50 real-backend runs per quick run.', DAG_NOTE),
+ 'C02': ('proof: start_after_deps - in every run every submit/start/exec of a task is preceded by a yield of each of its direct dependencies; ddeps_complete (every task object found in the parameters is a recorded dependency); dep_result_visible / dep_read_value - the snapshot a worker reads holds v for dependency d iff d was yielded ok v before (failed or died dependency: no entry, the read raises).', DAG_NOTE),
+ 'C03': ('proof: submitted_at_most_once, executed_at_most_once, yielded_at_most_once, nothing_outside_plan, plan_only_reachable for whole runs, plus plan_pending_nodup, cached_not_expanded, processed_object_skipped, load_xor_exec, instances_marked.', DAG_NOTE),
  'C04': ('proof: per-type max_parallel and global max_workers limits are invariants of every reachable state of whole runs (all problems, configurations, cache pre-states, schedules incl. batches and deaths), at loop heads and right after the submit phase; _start_processes tops up to exactly min(max_workers, running+queued); the serial runner has no worker and executes one submission per wait.', DAG_NOTE),
- 'C05': ('proof (partial): the submit phase starts every task get_ready_tasks lists; a pending task that is not listed is blocked by a pending dependency or by its type limit (counting active + already picked); after submit and after every wait no worker slot is idle while a future is queued; the serial wait executes the deque head. Idempotence of the submit phase (ready set empty afterwards) is being derived from the master invariant.', DAG_NOTE),
- 'C10': ('proof (partial): with continue_on_failure handling a failed/died task never raises, stores and captures nothing and completes the task in the scheduler exactly as a success would; without it the first failure raises LabError for that very task, the rest of the batch is not processed and the loop body never runs again (no further start); run_tasks returns only captured requested tasks.', DAG_NOTE),
- 'C11': ('proof (partial): the loop exits with zero further polling rounds once nothing is pending or in flight; every yielded outcome (success, raise or death) strictly shrinks the tracked futures; a wait in which all workers report empties the executor; every serial wait shortens the deque. The no-deadlock statement is being derived from the master invariant; wall-clock termination incl. killed workers is observed on real backends.', DAG_NOTE),
+ 'C05': ("proof: submit_phase_exhausts_ready (after the submit phase get_ready_tasks is empty in every reachable running state), resting_point_blocked (every pending task is dependency- or type-blocked at rest), no_idle_worker_at_rest, submit_phase_starts_all_ready, not_ready_means_blocked. The counting form 'executing = min(max_workers, runnable)' is not stated as one equation.", DAG_NOTE),
+ 'C10': ("proof: failure_isolated_status (with continue_on_failure no reachable state ever raises), failure_isolated_returns, no_start_after_raise, fail_fast_raises, raised_stops_loop, failed_task_has_no_result, failure_completes_task. 'Every task not depending on a failed one returns its reference value' is checked by the monitor (failure-aware reference evaluator), not yet a theorem.", DAG_NOTE),
+ 'C11': ('proof: no_keyerror, no_deadlock (pending work implies something in flight; for process runners a running worker), fair_iteration_progress, terminates / terminates_cases (under Acyclic, positive limits and a fair schedule of length >= |plan|+1 the run ends returned or LabError), spins_without_limits (max_workers=0 spins: the hypothesis is necessary). Wall-clock termination incl. SIGKILLed workers and the task monitor on/off is observed on real backends.', DAG_NOTE),
  'C16': ('proof (partial by nature): the decision logic labtech itself performs - backend selection table, start method per backend, context handed to run() = own filter of the Lab context on every backend (none when loaded), context non-interference of key and metadata, worker memory view per backend. What CPython start methods really do is observed on real serial/fork/spawn workers (pid, ppid, thread, start method, parent-mutated global, self.context; pairs of runs under different contexts compare keys and stored metadata).',
          'Model: lean/LabtechModel/Model/Env.lean (decision logic only). Runtime truth (which start method runs, what memory is shared) is checked, not proved. Trusted: Lean kernel, standard axioms, harness, CPython multiprocessing.'),
- 'C17': ('proof (partial): remove_results drops exactly the named results and skips absent ones; complete_task reports only direct dependencies of the completing task or the task itself (the latter exactly when nothing waits for it); a requested value is captured before it can be released; a result not reported is kept. The whole-run invariant results = needed is being derived from the master invariant.', DAG_NOTE),
+ 'C17': ("proof: results_iff_needed - in every reachable running state a result is in the runner's map iff its task succeeded and still has an unfinished direct dependent (keys duplicate-free), results_value, needed_spec, empty_at_return, plus remove_results_exact, complete_reports_unneeded, captured_before_release.", DAG_NOTE),
  'C19': ('proof: Lean theorems over the proxy/worker/wait-round model (proxy_exactly_once, flush_idempotent, worker_exactly_once, conservation, no_duplicates, delivered_before_return, exactly_once, task_output_delivered) for every write/flush pattern, every number of workers and every release schedule; tied to the code by byte-exact correspondence on LoggerFileProxy, on the real ProcessRunner.wait/_subprocess_func/coordinator loop under the fake-process layer with phase-controlled release, and on real fork/spawn runs.',
          'killed workers and interrupt paths are outside the model; record-before-result ordering of Manager-queue puts is an assumption of the fake layer, checked only by the real runs. Trusted: Lean kernel, standard axioms, harness, CPython logging/multiprocessing.'),
  'C20': ('proof: build_fuel_sufficient, build_visits_all, build_types/_nodup/_order, build_entry, build_rels/_nodup, many_iff, single_iff, render_shape_*, render_defined for all task graphs of any size or depth; real build_task_diagram text equals the model text byte for byte on generated graphs; parse-back monitor against an independent traversal.',
